@@ -515,3 +515,30 @@ class ClassOracle:
                 and v.func.value.id in ppos and v.func.attr in self.factories():
             return v.func.value.id, ppos[v.func.value.id], v.func.attr
         return None
+
+
+def shape(node: ast.AST, obj: ast.AST) -> str:
+    """Name-free text of a construct: the consumed expression is OBJ, other local names are `_` (callee names, attribute
+    names, `self` and constants stay)."""
+    import copy as _copy
+    key = norm(obj)
+    tree = _copy.deepcopy(node)
+    if isinstance(tree, (ast.For, ast.AsyncFor)):
+        tree = tree.iter
+    elif isinstance(tree, (ast.If, ast.While)):
+        tree = tree.test
+
+    class Tr(ast.NodeTransformer):
+        def visit(self, n: ast.AST) -> ast.AST:      # noqa: D102
+            if isinstance(n, (ast.Name, ast.Attribute, ast.Subscript)) and norm(n) == key:
+                return ast.Name(id='OBJ', ctx=ast.Load())
+            if isinstance(n, ast.Call):
+                f = n.func
+                if isinstance(f, ast.Name):
+                    n.args = [self.visit(a) for a in n.args]
+                    n.keywords = [ast.keyword(arg=k.arg, value=self.visit(k.value)) for k in n.keywords]
+                    return n
+            if isinstance(n, ast.Name) and n.id != 'self':
+                return ast.Name(id='_', ctx=ast.Load())
+            return self.generic_visit(n)
+    return norm(Tr().visit(tree))
